@@ -118,6 +118,8 @@ def run(tier, seed, mutant=None, only_validate=False):
         life += [" ".join(_rng.choice(["e1", "e1", "s", "s", "d", "R", "Z"]) for _ in range(_rng.randint(6, 14)))
                  for _ in range(60 if tier == "quick" else 600)]
         cfgs += [{"kind": "latest", "cons": [c], "max_elems": ne, "lifecycle": True, "schedules": life} for c in ("future", "sync")]
+        # a one-shot subscriber in front of the watched consumer detaches itself in the middle of a delivery
+        cfgs += [{"kind": "latest", "cons": [c], "max_elems": ne, "oneshot": k} for c in ("future", "sync") for k in (1, 2)]
         amod.node_engine(res, work, node="latest", trace_module="AsyncLatestTrace", cfgs=cfgs,
                          consts_of=lambda c: dict(NE=ne, SyncCons=c["cons"][0] == "sync", Legacy=False, CbOwns=False),
                          adapt=adapt, attribute=attribute, seed=seed, depth=8 if tier == "quick" else 10,
